@@ -80,18 +80,18 @@ Proof. exact tty_encode_agree. Qed.
 Print Assumptions C06_tty_encode_agree.
 
 (* ... so terminal() is the path of the listed node with the task's (major, minor), for every
-   /dev listing of device nodes and every minor below 2^19 *)
+   /dev listing of device nodes and every minor of the kernel's range (20 bits) *)
 Theorem C06_terminal_exact : forall devs r M m t,
   wf_kstat r = true -> forallb wf_dev devs = true ->
-  1 <= M < 4096 -> 0 <= m < 524288 ->
+  1 <= M < 4096 -> 0 <= m < 1048576 ->
   fld 7 r = Some t -> parse_int t = Some (as_int32 (kernel_encode_dev M m)) ->
-  terminal (map dev_entry devs) (k_stat r) = Val (spec_terminal M m devs None).
+  terminal true (map dev_entry devs) (k_stat r) = Val (spec_terminal M m devs None).
 Proof. exact terminal_exact. Qed.
 Print Assumptions C06_terminal_exact.
 
 Theorem C06_terminal_none : forall devs r,
   wf_kstat r = true -> forallb wf_dev devs = true -> fld 7 r = Some [48] ->
-  terminal (map dev_entry devs) (k_stat r) = Val None.
+  terminal true (map dev_entry devs) (k_stat r) = Val None.
 Proof. exact terminal_none. Qed.
 Print Assumptions C06_terminal_none.
 
@@ -102,16 +102,17 @@ Theorem C06_example_terminal :
 Proof. exact ex_terminal. Qed.
 Print Assumptions C06_example_terminal.
 
-(* full statement (0 <= m < 2^20, the kernel's minor range) is FALSE of the code: for
-   minor >= 2^19 the kernel prints its `int tty_nr` negative and the lookup misses the node *)
-Theorem C06_terminal_high_minor_refuted :
+(* the code before the repair 2414912 (masked = false) failed this for minor >= 2^19: the kernel
+   prints its `int tty_nr` negative and the lookup missed the node; the repaired code finds it *)
+Theorem C06_terminal_signed_refuted :
   exists r devs M m t,
     wf_kstat r = true /\ forallb wf_dev devs = true /\ 1 <= M < 4096 /\ 0 <= m < 1048576 /\
     fld 7 r = Some t /\ parse_int t = Some (as_int32 (kernel_encode_dev M m)) /\
     spec_terminal M m devs None = Some (bs "/dev/pts/524288") /\
-    terminal (map dev_entry devs) (k_stat r) = Val None.
-Proof. exact terminal_high_minor_refuted. Qed.
-Print Assumptions C06_terminal_high_minor_refuted.
+    terminal false (map dev_entry devs) (k_stat r) = Val None /\
+    terminal true (map dev_entry devs) (k_stat r) = Val (Some (bs "/dev/pts/524288")).
+Proof. exact terminal_signed_refuted. Qed.
+Print Assumptions C06_terminal_signed_refuted.
 
 (* threads(): any number of threads, each with its own name (any bytes); one row per
    thread still there, exact times; vanished threads left out; never fails for a live process *)
